@@ -17,7 +17,7 @@ while IFS=$'\t' read -r patch prop want; do
   rm -rf "$SCR/repo"; mkdir -p "$SCR/repo"
   (cd /repo && git ls-files -z | xargs -0 cp --parents -t "$SCR/repo") 2>/dev/null
   if ! (cd "$SCR/repo" && patch -s -p1 < "$VERIF/$patch"); then echo "SELFTEST-ERROR cannot apply $patch"; fail=1; continue; fi
-  out=$(VERIF_REPO="$SCR/repo" ./bin/govc -prop "$prop" -tier quick -repo "$SCR/repo" -verif "$VERIF" -out "$SCR/verifout" -noreplay 2>&1); rc=$?
+  out=$(VERIF_REPO="$SCR/repo" ./bin/govc -prop "$prop" -tier quick -repo "$SCR/repo" -verif "$VERIF" -out "$SCR/verifout" 2>&1); rc=$?
   if [ $rc -eq 1 ] && echo "$out" | grep -q "^VIOLATION property=$prop"; then
     if [ "$want" != "-" ] && ! ls "$SCR/verifout/replays/$prop/" 2>/dev/null | grep -q -- "$want"; then
       echo "SELFTEST-WEAK $patch: $prop alarms but not on obligation '$want': $(ls $SCR/verifout/replays/$prop | tr '\n' ' ')"
